@@ -12,6 +12,8 @@ structure St where
   noHdr : List Nat := []
   noBody : List Nat := []
   frozen : List Block := []
+  /-- model the repair proposed for F17 (`ckbmodel_c10 C10 f17-fixed`) -/
+  f17fixed : Bool := false
 
 def toFS (s : St) : FS :=
   { v := s.c.v,
@@ -36,7 +38,7 @@ def query (s : St) : String :=
     | none => none
     | some blk =>
       let h := f.hdr id
-      let b := match getBlock f id with
+      let b := match (if s.f17fixed then getBlockF17 f id else getBlock f id) with
         | .some fb => if fb.id = id then "=" else "!"
         | .none => "-"
         | .panic => "P"
@@ -68,11 +70,17 @@ def step (s : St) (ts : List String) : St × String :=
   | ["query"] => (s, query s)
   -- oracle-only op of the harness (crash enumeration on copies of the node directory)
   | ["crashfreeze"] => (s, "ok")
+  -- `limit` stream: only the threshold arithmetic is compared (31 000 empty blocks are not replayed
+  -- in the model): freezer.number after a pass = min(threshold, before + MAX_FREEZE_LIMIT)
+  | ["limitpass", before, thr] =>
+    match parseNat? before, parseNat? thr with
+    | some b, some t => (s, s!"ok {max b (min t (b + MAX_FREEZE_LIMIT))}")
+    | _, _ => (s, "bad-op")
   | "block" :: _ =>
     match C02.parseBlock s.c ts with
     | none => (s, "bad-op")
     | some (c1, b) =>
-      if 0 < b.number && b.number < s.frozen.length + 1 then
+      if !s.f17fixed && 0 < b.number && b.number < s.frozen.length + 1 then
         -- a block stored at an already frozen height: `get_block(hash)` hands the chain service the
         -- frozen main-chain block of that height instead, which is already verified: nothing but
         -- `insert_block` happens
@@ -85,7 +93,7 @@ def step (s : St) (ts : List String) : St × String :=
     let (c', out) := C02.step s.c ts
     ({ s with c := c' }, out)
 
-def main (_args : List String) : IO UInt32 :=
-  runLines ({} : St) step
+def main (args : List String) : IO UInt32 :=
+  runLines ({ f17fixed := args.contains "f17-fixed" } : St) step
 
 end CkbVerif.Driver.C10
